@@ -233,5 +233,72 @@ func allChecks() []*Check {
 			Bounds: "forests of N rows (quick 3, thorough 4), names opaque single path elements, 0..2 opaque extensions; routes OutputFromMarkdown+dry-run, MkdirFromMarkdown+dry-run, MkdirFromRoot+dry-run (single root); report compared with plain tree text + counts of what the real MkdirFromMarkdown then creates in the same file-system model. 'dry run rejects iff the real run rejects because of names' is decided at byte level by C07 (same five routes, every name byte symbolic). Outside: massive mode (C10).",
 			Assume: append([]string{parseContract, pathContract, fsModel, "fatih/color under NoColor; bufio.Writer as buffer + one Write at Flush"}, commonAssume...),
 		},
+		{
+			ID:    "C10",
+			Files: files(filesProg, filesVFS, []string{"gtree/c06.go", "gtree/c08.go", "gtree/c09.go", "gtree/c10.go"}),
+			Quick: []Job{
+				gjf("C10.n3.fifo", "VerifC10", 3, "C10.err/text", "C10.same/text", "C10.same/json", "C10.same/dryrun", "C10.same/walk", "C10.same/mkdir", "C10.same/verify", "C10.noleak", "C10.end"),
+				{Name: "C10.n2.lifo-lastsel", Pkg: "gtree", Entry: "VerifC10", N: 2, FSModel: true, Sched: "lifo-lastsel", Expect: []string{"C10.err/text", "C10.same/text", "C10.noleak", "C10.end"}},
+				{Name: "C10.units", Pkg: "gtree", Entry: "VerifC10Units", N: 0, FSModel: true, RealParse: true, Expect: []string{"C10.err.units/same-unit", "C10.err.units/mixed-units"}},
+				gjf("C10.exists", "VerifC10Exists", 0, "C10.exists.simple", "C10.exists.err", "C10.exists.fs/partial"),
+			},
+			Thorough: []Job{
+				gjf("C10.n4.fifo", "VerifC10", 4, "C10.err/text", "C10.same/text", "C10.same/json", "C10.same/dryrun", "C10.same/walk", "C10.same/mkdir", "C10.same/verify", "C10.noleak", "C10.end"),
+				{Name: "C10.n3.lifo", Pkg: "gtree", Entry: "VerifC10", N: 3, FSModel: true, Sched: "lifo", Expect: []string{"C10.same/text", "C10.noleak", "C10.end"}},
+				{Name: "C10.n3.fifo-lastsel", Pkg: "gtree", Entry: "VerifC10", N: 3, FSModel: true, Sched: "fifo-lastsel", Expect: []string{"C10.same/text", "C10.noleak", "C10.end"}},
+				{Name: "C10.n3.lifo-lastsel", Pkg: "gtree", Entry: "VerifC10", N: 3, FSModel: true, Sched: "lifo-lastsel", Expect: []string{"C10.same/text", "C10.noleak", "C10.end"}},
+				{Name: "C10.units", Pkg: "gtree", Entry: "VerifC10Units", N: 0, FSModel: true, RealParse: true, Expect: []string{"C10.err.units/same-unit", "C10.err.units/mixed-units"}},
+				gjf("C10.exists", "VerifC10Exists", 0, "C10.exists.simple", "C10.exists.err", "C10.exists.fs/partial"),
+			},
+			Bounds: "documents of N rows (quick 3, thorough 4) from the family: roots as list items or # headings, children indented, one optional blank/whitespace-only row at any position (also leading), one optional malformed row (no bullet, empty text, nested two levels too deep); operations text, JSON, dry-run report, walk, mkdir and verify on the file-system model; the real pipeline (splitter, 10+10+10 workers per stage, errgroup collectors) runs under a deterministic cooperative scheduler: policies FIFO and (N=2 quick, N=3 thorough) LIFO, each with first-ready or last-ready select case. Byte level: two roots whose children are indented by i and j blanks, i,j in 1..4. Pre-existing root with two roots. NOT decided: equality under every schedule (e.g. a removed spreader mutex is only seen if an explored policy interleaves two printing workers); data races.",
+			Assume: append([]string{parseContract, pathContract, fsModel, encStub, "goroutines, channels, select, sync.WaitGroup/Mutex, context and errgroup are engine-native with Go semantics under a run-until-block scheduler (one interpreted goroutine runs at a time); every explored schedule is a legal Go schedule, the converse is not claimed"}, commonAssume...),
+		},
+		{
+			ID:    "C11",
+			Files: files([]string{"gtree/common.go", "gtree/progtree.go"}, filesVFS, []string{"gtree/c11.go"}),
+			Quick: []Job{
+				gjf("C11.fail.n3", "VerifC11Fail", 3, "C11.returns/parse", "C11.returns/validate", "C11.returns/write", "C11.returns/callback", "C11.returns/fs", "C11.returns/reader", "C11.reported/parse", "C11.noleak/parse", "C11.noleak/write", "C11.noleak/fs"),
+				gjf("C11.cancel.n2", "VerifC11Cancel", 2, "C11.cancel.returns", "C11.ctxerr.only", "C11.ctxerr/precancelled", "C11.cancel.never", "C11.noleak/cancel"),
+				gjf("C11.root.n3", "VerifC11Root", 3, "C11.root.returns", "C11.root.ctxerr.only", "C11.ctxerr/precancelled-root", "C11.noleak/root"),
+			},
+			Thorough: []Job{
+				gjf("C11.fail.n4", "VerifC11Fail", 4, "C11.returns/parse", "C11.returns/validate", "C11.returns/write", "C11.returns/callback", "C11.returns/fs", "C11.returns/reader", "C11.reported/parse", "C11.noleak/parse", "C11.noleak/write", "C11.noleak/fs"),
+				{Name: "C11.fail.n4.lifo", Pkg: "gtree", Entry: "VerifC11Fail", N: 4, FSModel: true, Sched: "lifo", Expect: []string{"C11.returns/parse", "C11.noleak/parse"}},
+				{Name: "C11.fail.n3.lifo-lastsel", Pkg: "gtree", Entry: "VerifC11Fail", N: 3, FSModel: true, Sched: "lifo-lastsel", Expect: []string{"C11.returns/parse", "C11.noleak/parse"}},
+				gjf("C11.cancel.n3", "VerifC11Cancel", 3, "C11.cancel.returns", "C11.ctxerr.only", "C11.ctxerr/precancelled", "C11.cancel.never", "C11.noleak/cancel"),
+				{Name: "C11.cancel.n2.lifo", Pkg: "gtree", Entry: "VerifC11Cancel", N: 2, FSModel: true, Sched: "lifo", Expect: []string{"C11.cancel.returns", "C11.noleak/cancel"}},
+				{Name: "C11.cancel.n2.fifo-lastsel", Pkg: "gtree", Entry: "VerifC11Cancel", N: 2, FSModel: true, Sched: "fifo-lastsel", Expect: []string{"C11.cancel.returns", "C11.noleak/cancel"}},
+				gjf("C11.root.n4", "VerifC11Root", 4, "C11.root.returns", "C11.root.ctxerr.only", "C11.ctxerr/precancelled-root", "C11.noleak/root"),
+			},
+			Bounds: "N root blocks (quick 3, thorough 4) of which an arbitrary subset fails, one failure stage per run: parse error, name validation error, writer refusing every write, walk callback error, mkdir with pre-existing roots, failing reader; cancellation of the caller's context at synchronisation event k (k = 0 i.e. before the call, 1..20, then every 8th up to 172, or never) for text output, walk and JSON on N=2/3 roots, and for the From-Root massive routes; a blocked main goroutine with nothing runnable is a deadlock (call never returns); verifQuiesce runs everything runnable after the return and counts goroutines still alive. Policies FIFO (all), LIFO and last-ready select (thorough). NOT decided: arbitrary schedules; the data-race clause (no memory model: the unsynchronised Parser.isSharpRoot write named in the anchors cannot be decided here - since the D7 repair each block has its own parser, so the field is no longer shared).",
+			Assume: append([]string{parseContract, pathContract, fsModel, "engine-native goroutines/channels/select/sync/context/errgroup under a deterministic cooperative scheduler; every explored schedule is legal, not every legal schedule is explored"}, commonAssume...),
+		},
+		{
+			ID:    "C16",
+			Files: []string{"main/c16.go"},
+			Quick: []Job{
+				{Name: "C16.output", Pkg: "main", Entry: "VerifC16Output", NoNative: true, Expect: []string{"C16.wire.output", "C16.wire.output.badformat.nocall", "C16.code.output.badformat", "C16.code.output.open", "C16.code.output.exitcoder"}},
+				{Name: "C16.mkdir", Pkg: "main", Entry: "VerifC16Mkdir", NoNative: true, Expect: []string{"C16.wire.mkdir", "C16.code.mkdir.open", "C16.code.mkdir.exitcoder"}},
+				{Name: "C16.verify", Pkg: "main", Entry: "VerifC16Verify", NoNative: true, Expect: []string{"C16.wire.verify", "C16.code.verify.open", "C16.code.verify.exitcoder"}},
+				{Name: "C16.code", Pkg: "main", Entry: "VerifC16Code", NoNative: true, Expect: []string{"C16.code.libfail", "C16.code.success"}},
+				{Name: "C16.main", Pkg: "main", Entry: "VerifC16Main", NoNative: true, Expect: []string{"C16.main.usage", "C16.main.success", "C16.main.strayargs"}},
+			},
+			Bounds: "all flag combinations of the three actions: --format as an arbitrary string, --massive, --massive-timeout as an arbitrary duration, --file as an arbitrary path (stdin for empty or '-'), --dry-run, 0..2 arbitrary --extension values, arbitrary --target-dir, --strict; os.Open succeeds or fails; the library call succeeds or fails; main() with App.Run returning nil or a non-ExitCoder error. --watch is excluded (ticker loop never returns). Outside: urfave/cli's own parsing of the command line, the real process on closed stdout//dev/full (library side: C14), 'template | output'.",
+			Assume: []string{"urfave/cli: Context getters return symbolic flag values memoised by name; App.Run obeys the documented exit-coder contract (an ExitCoder error never comes back: HandleExitCoder exits with its code); cli.Exit / exitError are the real code", "gtree.OutputFromMarkdown / MkdirFromMarkdown / VerifyFromMarkdown are recording stubs; the options they receive are applied by the real gtree.newConfig and compared with what the flags denote", "os.Open, os.Exit, os.Stdin/Stdout/Stderr, color.Output are engine stubs"},
+		},
+		{
+			ID:    "C17",
+			Files: []string{"gtree/common.go", "gtree/c17.go"},
+			Quick: []Job{
+				{Name: "C17.any.n3", Pkg: "gtree", Entry: "VerifC17", N: 3, FSModel: true, Wasm: true, Expect: []string{"C17.acc.any/text", "C17.acc.any/json", "C17.acc.any/dryrun", "C17.out.any/text", "C17.out.any/json", "C17.out.any/dryrun"}},
+				{Name: "C17.wf.n4", Pkg: "gtree", Entry: "VerifC17WF", N: 4, FSModel: true, Wasm: true, Expect: []string{"C17.out.wf/text", "C17.out.wf/json", "C17.out.wf/dryrun"}},
+			},
+			Thorough: []Job{
+				{Name: "C17.any.n4", Pkg: "gtree", Entry: "VerifC17", N: 4, FSModel: true, Wasm: true, Expect: []string{"C17.acc.any/text", "C17.acc.any/json", "C17.acc.any/dryrun", "C17.out.any/text", "C17.out.any/json", "C17.out.any/dryrun"}},
+				{Name: "C17.wf.n6", Pkg: "gtree", Entry: "VerifC17WF", N: 6, FSModel: true, Wasm: true, Expect: []string{"C17.out.wf/text", "C17.out.wf/json", "C17.out.wf/dryrun"}},
+			},
+			Bounds: "documents of N rows (quick 3, thorough 4) with every row class (item at any depth 0..N, blank, no bullet, empty text) and well-formed forests of N rows (quick 4, thorough 6); options: text with 4 opaque branch strings, JSON record, dry-run report with 0..1 opaque extension; both variants compiled into one SSA program (the tinywasm file set regenerated from /repo's working tree on every run). Outside: YAML/TOML (absent from the tinywasm variant), cmd/gtree-wasm's JavaScript glue.",
+			Assume: append([]string{parseContract, pathContract, encStub, "the tinywasm variant is type-checked and executed as package gtree/zz_verif_wasm with build tag verif standing in for tinywasm (file selection by the original constraints)"}, commonAssume...),
+		},
 	}
 }
